@@ -6,13 +6,17 @@
     (theorem below, unbounded field lists, any remainder of the stream); block framing by
     Content-Length is insensitive to block content (delimiter-imitating bytes); the end-of-record
     marker is accepted; digests are computed over exactly the serialized block (C02) and a record
-    without length/digest defects passes verification untouched (C03).  Not yet mechanised: the
-    composition of these stages into one statement about [parse_record (marshal r ++ rest)].
-    That composition is evaluated on the implementation (domain rt: build, marshal, plain or
-    gzip, parse under another policy, compare, marshal again) and the model of each stage is
-    tied to the code by the build and unm correspondence runs. *)
+    without length/digest defects passes verification untouched (C03).  The stages are composed in
+    [C01_marshal_then_parse_returns_the_record]: for every valid record (known version, well
+    formed header that validates with no finding, truthful Content-Length, block that parses to
+    itself, digests absent or valid - under the reader's own options), any following bytes and
+    any stream tail, parsing the marshalled form returns exactly that record, no finding, and
+    leaves exactly the following bytes.  Not mechanised: that every record [build] returns is
+    valid in this sense for every reader policy (it is what C02/C03/C17 establish stage by
+    stage), and the gzip container.  Both are evaluated on the implementation (domain rt: build,
+    marshal, plain or gzip, parse under another policy, compare, marshal again). *)
 Require Import Model.Bytes Model.FieldDef Gen.FieldTable Model.Fields Model.Policy Model.Stream Model.HeaderParse Model.Digest Model.Record.
-Require Import Proofs.HeaderProofs Proofs.RecordProofs.
+Require Import Model.Validate Proofs.HeaderProofs Proofs.RecordProofs Proofs.RoundTripProofs.
 
 Theorem C01_header_section_round_trips :
   forall uni_lower mime_dec p fs rest tl fnd,
@@ -43,3 +47,45 @@ Theorem C01_marshal_layout :
   forall r, marshal r = s_WARC ++ r_vtxt r ++ CRLF ++ serialize (r_fields r) ++ raw_bytes (r_block r) ++ CRLFCRLF.
 Proof. intros r. unfold marshal, serialize. rewrite <- !app_assoc. reflexivity. Qed.
 Print Assumptions C01_marshal_layout.
+
+(** the composition *)
+Theorem C01_marshal_then_parse_returns_the_record :
+  forall uni_lower uni_upper time_ok ip_ok uri_ok wid_ok mime_dec H b32 b64 http_req_ok http_resp_ok o r bd pd rest tl,
+    valid_record field_table required_fields uni_lower uni_upper time_ok ip_ok uri_ok wid_ok mime_dec H b32 b64
+                 http_req_ok http_resp_ok o r bd pd ->
+    parse_record field_table required_fields uni_lower uni_upper time_ok ip_ok uri_ok wid_ok mime_dec H b32 b64
+                 http_req_ok http_resp_ok o (mkst (marshal r ++ rest) tl) []
+    = URec r None [] (mkst rest tl).
+Proof. exact (marshal_then_parse field_table required_fields). Qed.
+Print Assumptions C01_marshal_then_parse_returns_the_record.
+
+From Coq Require Import String.
+Local Open Scope N_scope.
+(** non-vacuity: a strict reader, a resource record whose block imitates the record delimiter and
+    the start of another record *)
+Definition ex_idb (s : bytes) := s.
+Definition ex_yes (s : bytes) := true.
+Definition ex_noh (a : alg) (s : bytes) : bytes := [].
+Definition ex_nodec (s : bytes) : option bytes := None.
+Definition ex_opts := mkopts Fail Fail Fail Fail false false false false false false false false (bs "sha1") Base32.
+Definition ex_fields : fields :=
+  [(bs "WARC-Type", bs "resource"); (bs "WARC-Record-ID", bs "<urn:uuid:e9a0cecc-0221-11e7-adb1-0242ac120008>");
+   (bs "WARC-Date", bs "2017-03-06T04:03:53Z"); (bs "WARC-Target-URI", bs "http://example.com/a");
+   (bs "Content-Type", bs "text/plain"); (bs "Content-Length", bs "13")]%string.
+Definition ex_block := mkblk BGeneric [] (List.app (bs "a") (List.app [13;10;13;10] (bs "WARC/1.1"))).
+Definition ex_record := mkrec v11 2 4 ex_fields ex_block.
+Definition ex_digest := {| d_alg := SHA1; d_name := bs "sha1"; d_hash := []; d_enc := Base32; d_fed := raw_bytes ex_block |}.
+
+Example C01_a_valid_record :
+  valid_record field_table required_fields ex_idb ex_idb ex_yes ex_yes ex_yes ex_yes ex_nodec ex_noh ex_nodec ex_nodec
+               ex_yes ex_yes ex_opts ex_record ex_digest (Some ex_digest).
+Proof.
+  constructor.
+  - right; split; reflexivity.
+  - intros f [<-|[<-|[<-|[<-|[<-|[<-|[]]]]]]]; constructor; vm_compute; reflexivity.
+  - discriminate.
+  - vm_compute; reflexivity.
+  - vm_compute; reflexivity.
+  - vm_compute; reflexivity.
+  - vm_compute; reflexivity.
+Qed.
